@@ -1,7 +1,6 @@
 use enum_map::EnumMap;
 use indexmap::IndexMap;
 use oal_syntax::atom;
-use std::collections::HashMap;
 use std::fmt::Debug;
 
 #[derive(Clone, Debug, PartialEq)]
@@ -82,7 +81,7 @@ pub struct Schema {
     pub desc: Option<String>,
     pub title: Option<String>,
     pub required: Option<bool>,
-    pub examples: Option<HashMap<String, String>>,
+    pub examples: Option<IndexMap<String, String>>,
 }
 
 #[derive(Clone, Debug, PartialEq, Default)]
@@ -150,7 +149,7 @@ pub struct Content {
     pub media: Option<MediaType>,
     pub headers: Option<Object>,
     pub desc: Option<String>,
-    pub examples: Option<HashMap<String, String>>,
+    pub examples: Option<IndexMap<String, String>>,
 }
 
 impl From<Schema> for Content {
